@@ -153,13 +153,114 @@ pub fn extreme_instants() -> (u64, Vec<(String, String, Value)>) {
     (calls, fails)
 }
 
+/// Helper process for `binomial_seeded_streams`: one case per input line, "<trials> <probability bits, hex> <seed> <calls>".
+/// A one-state machine pads with a Binomial timeout on NormalSent; the framework's random source is rand's
+/// StdRng seeded with <seed> (an ordinary seeded pseudo-random stream, not an explorer script).
+pub fn binomial_helper_main() -> i32 {
+    use maybenot::action::Action;
+    use maybenot::dist::{Dist, DistType};
+    use maybenot::event::{Event, TriggerEvent as T};
+    use rand::SeedableRng;
+    use std::io::{BufRead, Write};
+    crate::explore::install_quiet_panic_hook();
+    let stdin = std::io::stdin();
+    let mut out = std::io::stdout();
+    for line in stdin.lock().lines() {
+        let Ok(line) = line else { break };
+        let f: Vec<&str> = line.split_whitespace().collect();
+        if f.len() != 4 {
+            continue;
+        }
+        let (Ok(trials), Ok(pb), Ok(seed), Ok(calls)) = (f[0].parse::<u64>(), u64::from_str_radix(f[1], 16), f[2].parse::<u64>(), f[3].parse::<u64>()) else { continue };
+        let d = Dist { dist: DistType::Binomial { trials, probability: f64::from_bits(pb) }, start: 0.0, max: 0.0 };
+        let m = fam::mk((u64::MAX, 0.0, 0, 0.0), vec![fam::st(&[(Event::NormalSent, &[(0, 1.0)])], Some(Action::SendPadding { bypass: false, replace: false, timeout: d, limit: None }), (None, None))]);
+        let r = std::panic::catch_unwind(std::panic::AssertUnwindSafe(|| {
+            let t = std::time::Instant::now();
+            let mut fw = maybenot::Framework::new(vec![m], 0.0, 0.0, t, rand::rngs::StdRng::seed_from_u64(seed)).map_err(|e| format!("{:?}", e))?;
+            let mut n = 0usize;
+            for _ in 0..calls {
+                n += fw.trigger_events(&[T::NormalSent], t).count();
+            }
+            Ok::<usize, String>(n)
+        }));
+        let _ = match r {
+            Ok(Ok(n)) => writeln!(out, "ok {n}"),
+            Ok(Err(e)) => writeln!(out, "rejected {e}"),
+            Err(_) => writeln!(out, "panic {}", crate::explore::last_panic().replace('\n', " ")),
+        };
+        let _ = out.flush();
+    }
+    0
+}
+
+/// A validated Binomial timeout under ordinary seeded streams, each case in a helper process with a watchdog (the
+/// sampler's inversion loop does not draw, so it cannot be interrupted in-process). Cases: the documented extremes
+/// of the family (trials 1e9 with probabilities of a few 1e-9) under the seeds listed. Returns (cases, failures).
+pub fn binomial_seeded_streams() -> (u64, Vec<(String, String, Value)>) {
+    use std::io::{BufRead, BufReader, Write};
+    use std::process::{Command, Stdio};
+    use std::sync::mpsc;
+    let cases: Vec<(u64, f64, u64, u64)> = vec![
+        (1_000_000_000, 6e-9, 11_621_206, 1),
+        (1_000_000_000, 9e-9, 11_621_206, 1),
+        (1_000_000_000, 6e-9, 1, 1000),
+        (1_000_000_000, 2e-9, 2, 1000),
+        (1_000_000_000, 1e-9, 3, 1000),
+        (1_000_000, 6e-6, 11_621_206, 1000),
+        (10, 0.5, 11_621_206, 1000),
+    ];
+    let mut fails = vec![];
+    let mut n = 0u64;
+    let run = |c: &(u64, f64, u64, u64)| -> String {
+        let exe = std::env::current_exe().expect("exe");
+        let mut child = Command::new(exe).arg("--c01-binomial-helper").stdin(Stdio::piped()).stdout(Stdio::piped()).stderr(Stdio::null()).spawn().expect("spawn helper");
+        let mut stdin = child.stdin.take().unwrap();
+        let stdout = child.stdout.take().unwrap();
+        let (tx, rx) = mpsc::channel();
+        std::thread::spawn(move || {
+            let mut l = String::new();
+            let _ = BufReader::new(stdout).read_line(&mut l);
+            let _ = tx.send(l);
+        });
+        let _ = writeln!(stdin, "{} {:x} {} {}", c.0, c.1.to_bits(), c.2, c.3);
+        let _ = stdin.flush();
+        let r = match rx.recv_timeout(std::time::Duration::from_secs(8)) {
+            Ok(l) if !l.trim().is_empty() => l.trim().to_string(),
+            _ => "hang".to_string(),
+        };
+        let _ = child.kill();
+        let _ = child.wait();
+        r
+    };
+    for c in &cases {
+        n += 1;
+        crate::supervise::beat();
+        let r = run(c);
+        if r.starts_with("ok") {
+            continue;
+        }
+        // confirm before reporting
+        let r2 = run(c);
+        crate::supervise::beat();
+        if r2.starts_with("ok") {
+            continue;
+        }
+        let what = if r == "hang" { "never returns (8 s watchdog, twice)".to_string() } else { r.clone() };
+        let sig = if r == "hang" && r2 == "hang" { "C01:Binomial:trigger_events-never-returns-under-a-seeded-stream".to_string() } else { format!("C01:Binomial:{}", first_line(&r).chars().take(60).collect::<String>()) };
+        fails.push((sig, format!("one machine padding with timeout Binomial{{trials: {}, probability: {:e}}} (accepted by validation), random source StdRng::seed_from_u64({}), {} call(s) of trigger_events([NormalSent]): {what}", c.0, c.1, c.2, c.3), json!({"property": "C01", "engine": "E1-binomial-seeded", "trials": c.0, "probability": c.1, "seed": c.2, "calls": c.3, "message": what})));
+    }
+    (n, fails)
+}
+
 pub fn worker(ctx: &WorkerCtx) -> WorkerOut {
     let mut s = run_e1::<Obs>("C01", plans(ctx), ctx, RULE);
     if ctx.only_unit.is_none() {
         let (n, fails) = extreme_instants();
         s.coverage["extreme_std_instant_calls"] = json!(n);
+        let (nb, bfails) = binomial_seeded_streams();
+        s.coverage["binomial_cases_under_seeded_streams"] = json!(nb);
         let mut seen = std::collections::HashSet::new();
-        for (sig, msg, replay) in fails {
+        for (sig, msg, replay) in fails.into_iter().chain(bfails) {
             if seen.insert(sig.clone()) {
                 s.reported.push(Rep { signature: sig, summary: msg, replay });
             }
